@@ -43,21 +43,22 @@ type World struct {
 	Fset   *token.FileSet
 	cg     *callgraph.Graph
 	// module functions (source functions incl. anonymous), sorted by position
-	ModFuncs     []*ssa.Function
-	fwd          map[*ssa.Function]*fwdInfo
-	phiEnv       map[*ssa.Phi]ssa.Value // path context while enumerating paths
-	phiBusy      map[*ssa.Phi]bool
-	memEnv       map[*ssa.Alloc]ssa.Value     // last value stored to a multi-store local on the current path
-	paramEnv     map[*ssa.Parameter]ssa.Value // parameters of inlined callees → caller values
-	callEnv      map[*ssa.Call][]ssa.Value    // inlined calls → the values returned on the current path
-	noInline     func(*ssa.Function) bool     // rule anchors (role functions) are never inlined
-	inlMemo      map[*ssa.Function]bool
-	prrMemo      map[[2]interface{}]bool
-	sentinelMemo map[*ssa.Global]bool
-	allocOrd     map[*ssa.Alloc]int
-	files        map[string][]byte
-	all          map[*ssa.Function]bool
-	overlay      map[string][]byte
+	ModFuncs      []*ssa.Function
+	fwd           map[*ssa.Function]*fwdInfo
+	phiEnv        map[*ssa.Phi]ssa.Value // path context while enumerating paths
+	phiBusy       map[*ssa.Phi]bool
+	memEnv        map[*ssa.Alloc]ssa.Value     // last value stored to a multi-store local on the current path
+	paramEnv      map[*ssa.Parameter]ssa.Value // parameters of inlined callees → caller values
+	callEnv       map[*ssa.Call][]ssa.Value    // inlined calls → the values returned on the current path
+	noInline      func(*ssa.Function) bool     // rule anchors (role functions) are never inlined
+	inlMemo       map[*ssa.Function]bool
+	fieldLoadMemo map[[2]interface{}][]ssa.Value
+	prrMemo       map[[2]interface{}]bool
+	sentinelMemo  map[*ssa.Global]bool
+	allocOrd      map[*ssa.Alloc]int
+	files         map[string][]byte
+	all           map[*ssa.Function]bool
+	overlay       map[string][]byte
 }
 
 func loadWorld(repo string, bc BuildConfig, overlay map[string][]byte) (*World, error) {
